@@ -77,6 +77,13 @@ def numOf : Expr → Option Int
   | .node .assets [_, _, .leaf (.number n)] => some n
   | _ => none
 
+/-- The number a one-number position denotes: a number, or a value of exactly one entry whose amount denotes one
+(to any depth; the relation `ScalarOf` of `C02_scalar_shape`). Independent of the model's `exprIntoNumber`. -/
+def scalarOf : Expr → Option Int
+  | .leaf (.number n) => some n
+  | .node .assets [_, _, a] => scalarOf a
+  | _ => none
+
 def bytesOf : Expr → Option Bytes
   | .leaf (.bytes b) => some b
   | .leaf (.string s) => some s.toUTF8.toList
@@ -241,15 +248,15 @@ def judge (prop : String) (j : Json) : R Verdict := do
         spec := spec ++ ["denotes:collateral"]
     if prop == "C02" then
       -- fee, validity
-      if let some f := numOf tx.fees then
+      if let some f := scalarOf tx.fees then
         if atx.fee != f then spec := spec ++ ["exact:fee"]
       let (since, untl) := match tx.validity with
         | some (a, b) => (a, b)
         | none => (Expr.leaf .none, Expr.leaf .none)
-      if let some s := numOf since then
+      if let some s := scalarOf since then
         if atx.validityStart != some s then spec := spec ++ ["exact:validity-start"]
       if since.isNone && atx.validityStart.isSome then spec := spec ++ ["exact:validity-start"]
-      if let some u := numOf untl then
+      if let some u := scalarOf untl then
         if atx.ttl != some u then spec := spec ++ ["exact:ttl"]
       if untl.isNone && atx.ttl.isSome then spec := spec ++ ["exact:ttl"]
       -- an amount no ledger field can hold makes compilation fail, in an optional output too: it is never dropped
@@ -340,7 +347,7 @@ def judge (prop : String) (j : Json) : R Verdict := do
           (adhocGet d "coin").map fun e => ("donation", e)) ++
         (tx.metadata.map fun m => ("metadata-label", m.key))
       for (what, e) in scalars do
-        if (numOf e).isNone then spec := spec ++ ["exact:" ++ what ++ ":not-a-number-accepted"]
+        if (scalarOf e).isNone then spec := spec ++ ["exact:" ++ what ++ ":not-a-number-accepted"]
     if prop == "C09" || prop == "C02" then
       if alignedOutputs.length ≤ atx.outputs.length then
         for (o, a) in alignedOutputs.zip atx.outputs do
